@@ -11,7 +11,7 @@ EXPLANATION = (
     "unknown_field error and knows exactly the struct's field names, and read_config_file propagates the error; "
     "(d) editorconfig::load maps each property value to the Config field/value of the documented option, keys and "
     "spellings as documented. Not decided: byte-identical output (behavioural), README wording."
-    "Later rounds: (R-EC(path)) the path handed to editorconfig::parse names a (pseudo) file, never the searched directory; (R-EC(per-file)) the Config derived from EditorConfig is never stored in the resolver; (R-CFGERR).")
+    "Later rounds: (R-EC(path)) the path handed to editorconfig::parse names a (pseudo) file, never the searched directory; (R-EC(per-file)) the Config derived from EditorConfig is never stored in the resolver; (R-CFGERR). Rounds 17-19: (R-CFG(b) path clause).")
 ASSUMPTIONS = ["serde/toml/clap/ec4rs behave as documented; derive expansions are read from MIR",
                "the EditorConfig mapping table in r_cfg.EC_TABLE restates the documented meaning of each key",
                "rustc MIR and Instance::try_resolve are trusted"]
